@@ -49,6 +49,7 @@ KF1 = 'KF-C14-1'
 KF2 = 'KF-C14-2'
 EXOTIC_NO_CR = '\x0b\x0c\x1c\x1d\x1e\x85\u2028\u2029'
 EXOTIC = '\r' + EXOTIC_NO_CR
+CODEC_SPECIAL = ['\ufeff', '\x00', '\x1a']  # characters some codecs / io layers treat specially; ordinary in a text
 PLAIN = ['a', 'b', 'c', ' ', 'a', 'b', '€', '\U0001d11e']
 
 
@@ -63,10 +64,12 @@ def gen_text(rng, exotic, max_lines=5, max_line=4):
     out = []
     for i in range(n):
         k = rng.randint(0, max_line)
-        line = ''
+        line = '\ufeff' if i == 0 and rng.chance(0.08) else ''   # a text starting with U+FEFF (a "BOM" for some codecs)
         for _ in range(k):
             if exotic and rng.chance(0.25):
                 line += rng.choice(EXOTIC)
+            elif rng.chance(0.04):
+                line += rng.choice(CODEC_SPECIAL)
             else:
                 line += rng.choice(PLAIN)
         last = i == n - 1
@@ -119,7 +122,7 @@ def gen_trans(rng):
 
 
 BASE_KINDS = ['str', 'file', 'prog']
-ACCESSES = ['str', 'lines', 'file', 'dep', 'freeze']
+ACCESSES = ['str', 'lines', 'file', 'dep', 'freeze', 'write']
 
 
 def gen_accesses(rng):
@@ -140,16 +143,17 @@ def gen_part(rng, exotic):
     return (rng.choice(BASE_KINDS), gen_text(rng, exotic, 3, 3), gen_trans(rng) if rng.chance(0.35) else None)
 
 
-def gen_progx(rng, exotic, small=False):
+def gen_progx(rng, exotic, small=False, allow_nd=True):
     variant = rng.choice(sorted(PROG_VARIANTS))
     ml = 3 if small else 5
     r = rng.below(3)
+    nd = allow_nd and (not small) and rng.chance(0.5)  # a program that prints something different at every run
     if r == 0:
-        return 'progx', (variant, gen_text(rng, exotic, ml, 3), None)
+        return 'progx', (variant, gen_text(rng, exotic, ml, 3), None, nd)
     sin = (rng.choice(['str', 'file']), gen_text(rng, exotic, ml, 3))
     if rng.chance(0.4):  # two stdin parts (the first one through a program symbol)
         sin = (sin, (rng.choice(['str', 'file']), gen_text(rng, exotic, 2, 3)))
-    return 'progx', (variant, None if r == 1 else gen_text(rng, exotic, 2, 3), sin)
+    return 'progx', (variant, None if r == 1 else gen_text(rng, exotic, 2, 3), sin, nd)
 
 
 def gen_big_text(rng):
@@ -258,11 +262,14 @@ def base_coq(kind, text):
     if kind == 'file':
         return '(SFile %s)' % ctext(text)
     if kind == 'prog':
-        return '(SProg PFd (g_const %s) cs0 [])' % ctext(text)
+        return '(SProg PFd (det (g_const %s)) cs0 [])' % ctext(text)
     if kind == 'progx':  # text = (variant, text printed by the program or None, stdin part (kind, text) or None)
-        v, ft, sin = text
+        v, ft, sin, nd = text
         sins = stdin_parts(sin)
-        g = 'g_cat' if ft is None else ('(g_const %s)' % ctext(ft) if not sins else '(g_prefix %s)' % ctext(ft))
+        if nd:
+            g = '(g_counting %s)' % ctext(ft or '')
+        else:
+            g = '(det %s)' % ('g_cat' if ft is None else ('(g_const %s)' % ctext(ft) if not sins else '(g_prefix %s)' % ctext(ft)))
         return '(SProg %s %s cs0 %s)' % (PROG_VARIANTS[v][1], g, clist([base_coq(*q) for q in sins]) if sins else '(@nil src)')
     if kind == 'runin':  # text = ((model kind, model text), (stdin kind, stdin text)): MODEL -transformed-by run % cat -stdin S
         m, sin = text
@@ -270,7 +277,7 @@ def base_coq(kind, text):
     raise ValueError(kind)
 
 
-ACC_COQ = {'str': 'AStr', 'lines': 'ALines', 'file': 'AFile', 'dep': 'ADep', 'freeze': 'AFreeze'}
+ACC_COQ = {'str': 'AStr', 'lines': 'ALines', 'file': 'AFile', 'dep': 'ADep', 'freeze': 'AFreeze', 'write': 'AWrite'}
 
 
 def obs_coq(o):
@@ -283,6 +290,10 @@ def obs_coq(o):
         return '(OFile (FText %s))' % ctext(v)
     if k == 'filebytes':
         return '(OFile (FBytes %s))' % common.cbytes(bytes(v))
+    if k == 'written':
+        return '(OWritten (FText %s))' % ctext(v)
+    if k == 'writtenbytes':
+        return '(OWritten (FBytes %s))' % common.cbytes(bytes(v))
     if k == 'exc':
         return 'OExc'
     if k == 'dep':
@@ -348,10 +359,13 @@ class World:
         elif kind == 'prog':
             s = '-stdout-from % cat ' + str(self.put_file(text)) + '\n'
         elif kind == 'progx':
-            v, ft, sin = text
+            v, ft, sin, nd = text
             sins = stdin_parts(sin)
             opt, _, to_stderr, ignore = PROG_VARIANTS[v]
             cmd = 'cat' + ('' if ft is None else ' ' + str(self.put_file(ft))) + (' -' if sins and ft is not None else '')
+            if nd:  # prints one more "x" at every run: the k-th run (k = 0, 1, ...) appends k times "x"
+                cnt, xs = self.put_file('0\n'), self.put_file('x' * 64)
+                cmd = '{ n=$(cat %s); echo $((n+1)) > %s; %s; head -c $n %s; }' % (cnt, cnt, cmd, xs)
             if to_stderr:
                 cmd += ' >&2'
             if ignore:
@@ -417,6 +431,15 @@ def _do_access(x, a):
             return ('filebytes', list(data))
     if a == 'dep':
         return ('dep', bool(x.contents().may_depend_on_external_resources))
+    if a == 'write':
+        p = pathlib.Path(x.contents().tmp_file_space.new_path('written'))
+        with p.open('w+') as f:
+            x.contents().write_to(f)
+        data = p.read_bytes()
+        try:
+            return ('written', data.decode('utf-8'))
+        except UnicodeDecodeError:
+            return ('writtenbytes', list(data))
     x.freeze()
     return ('freeze', None)
 
@@ -438,8 +461,18 @@ def observe_access(world, kind, text, trans, buff, accs, here_doc=False):
         world.clear_files()
 
 
+def is_nd(kind, text):
+    """the source contains a program that prints something different at every run"""
+    if kind == 'progx':
+        return bool(text[3])
+    if kind == 'concat':
+        return any(is_nd(k, t) for k, t, _ in text)
+    return False
+
+
 def access_case_term(kind, text, trans, buff, accs, observed):
-    return '(CaseAccess %s %s %s %s %s)' % (base_coq(kind, text), trans_coq(trans), cN(buff),
+    return '(%s %s %s %s %s %s)' % ('CaseAccessND' if is_nd(kind, text) else 'CaseAccess',
+                                    base_coq(kind, text), trans_coq(trans), cN(buff),
                                             clist([ACC_COQ[a] for a in accs]),
                                             clist([obs_coq(o) for o in observed]))
 
@@ -580,7 +613,7 @@ def kind_source(k, t, variant, sin):
     """(kind, text) of the source of kind k in {'str','file','prog'} holding the text t"""
     if k != 'prog':
         return k, t
-    return 'progx', ((variant, None, ('str', t)) if sin else (variant, t, None))
+    return 'progx', ((variant, None, ('str', t), False) if sin else (variant, t, None, False))
 
 
 def observe_kinds(world, te, ta, trans, buff, variant='out', sin=False):
@@ -746,6 +779,12 @@ def run(ctx, res):
                 elif r < 27:  # program output: stdout / stderr, exit code ignored or not, with or without -stdin
                     kind, text = gen_progx(rng, exotic)
                     buff = gen_buff(rng, whole_text(kind, text))
+                    if is_nd(kind, text):  # freeze, then at least two views in any order (write_to first in a third of them)
+                        pre = [a for a in accs if a != 'freeze'][:rng.randint(0, 2)]
+                        views = [rng.choice(['str', 'lines', 'file', 'write']) for _ in range(rng.randint(2, 4))]
+                        if rng.chance(0.5):
+                            views[0] = 'write'
+                        accs = pre + ['freeze'] + views
                 elif r < 32:  # MODEL -transformed-by run % cat -stdin S : concat [S, MODEL] as the program's stdin
                     kind = 'runin'
                     text = ((rng.choice(BASE_KINDS), gen_text(rng, exotic, 3, 3)), (rng.choice(['str', 'file']), gen_text(rng, exotic, 2, 3)))
@@ -766,6 +805,8 @@ def run(ctx, res):
             texts = leaf_texts(kind, text)
             whole = ''.join(texts)
             res.count('access cases: base ' + kind)
+            if is_nd(kind, text):
+                res.count('access cases: program output differs per run (one text after freeze demanded)')
             res.count('access cases: text ' + ('with CR/exotic boundary' if finding_of(texts) else 'clean'))
             res.count('access cases: buffer ' + ('< text' if buff < len(whole) else '>= text'))
             if len(whole) > 8192:
@@ -785,7 +826,7 @@ def run(ctx, res):
                 buff = gen_buff(rng, text)
                 m = gen_matcher(rng, rng.randint(0, 2), text, exotic)
                 if rng.chance(0.12):
-                    kind, text = gen_progx(rng, exotic)
+                    kind, text = gen_progx(rng, exotic, allow_nd=False)
                     buff = gen_buff(rng, whole_text(kind, text))
                     m = gen_matcher(rng, rng.randint(0, 2), whole_text(kind, text), exotic)
             syntax, vs, observed = observe_verdicts(world, kind, text, trans, buff, m)
